@@ -256,9 +256,15 @@ impl U512 {
     /// Remainder modulo a 256-bit modulus by bitwise long division (MSB first).
     pub fn rem(&self, m: &U256) -> U256 {
         assert!(!m.is_zero());
-        // r < m <= 2^256-1 ; r*2+bit may need 257 bits: keep an explicit carry bit.
-        let mut r = U256::ZERO;
-        for i in (0..self.bits()).rev() {
+        // Start with the top (bits(m)-1) bits of self, which are < 2^(bits(m)-1) <= m, then
+        // bring down one bit at a time. r*2+bit may need 257 bits: keep an explicit carry bit.
+        let n = self.bits();
+        let k = m.bits() - 1;
+        if n <= k {
+            return self.lo();
+        }
+        let mut r = self.shr(n - k).lo();
+        for i in (0..n - k).rev() {
             let top = r.bit(255);
             r = r.shl(1);
             if self.bit(i) {
@@ -269,5 +275,19 @@ impl U512 {
             }
         }
         r
+    }
+    pub fn shr(&self, n: usize) -> U512 {
+        if n >= 512 {
+            return U512::ZERO;
+        }
+        let (w, b) = (n / 64, n % 64);
+        let mut r = [0u64; 8];
+        for i in 0..8 - w {
+            r[i] = self.0[i + w] >> b;
+            if b > 0 && i + w + 1 < 8 {
+                r[i] |= self.0[i + w + 1] << (64 - b);
+            }
+        }
+        U512(r)
     }
 }
